@@ -224,40 +224,6 @@ Qed.
 (* ======================================================================== *)
 (* the runtime oracle of the application's state, and what the walk reports    *)
 (* ======================================================================== *)
-(* the sub-tree ports under every expansion: address (with the trailing '/'), switch
-   of the pointer, 'enabled by' toggle (addresses) *)
-Definition dir_entry := (str * option str * option str)%type.
-
-Fixpoint dirs_pt (dir : str) (p : pt) {struct p} : list dir_entry :=
-  match p with
-  | PLeaf _ _ _ => []
-  | PSub nm enum ptr sw sub =>
-      flat_map (fun x =>
-        (dir ++ x, option_map (fun g => dir ++ g) ptr, option_map (fun g => dir ++ g) sw) ::
-        (fix go (l : list pt) : list dir_entry :=
-           match l with [] => [] | q :: r => dirs_pt (dir ++ x) q ++ go r end) sub)
-        (expand (sub_segs nm enum))
-  end.
-Fixpoint dirs_tbl (dir : str) (l : list pt) : list dir_entry :=
-  match l with [] => [] | q :: r => dirs_pt dir q ++ dirs_tbl dir r end.
-
-Definition dir_addr (d : dir_entry) : str := fst (fst d).
-Definition dir_find (ds : list dir_entry) (b : str) : option dir_entry :=
-  find (fun d => str_eqb (dir_addr d) b) ds.
-
-(* o_null b: the sub-tree at address b is a pointer whose switch is off (the object
-   does not exist); o_disabled b: its 'enabled by' toggle answers false *)
-Definition oracle_of (a : app) (ds : list dir_entry) (s : state) : oracle :=
-  {| o_null := fun b => match dir_find ds b with
-                        | Some (_, Some g, _) => negb (sw_on a s g)
-                        | _ => false
-                        end;
-     o_disabled := fun b => match dir_find ds b with
-                            | Some (_, _, Some g) => negb (sw_on a s g)
-                            | _ => false
-                            end;
-     o_selfoff := fun _ => false |}.
-
 Lemma dirs_pt_sub : forall dir nm enum ptr sw sub,
   dirs_pt dir (PSub nm enum ptr sw sub) =
   flat_map (fun x => (dir ++ x, option_map (fun g => dir ++ g) ptr, option_map (fun g => dir ++ g) sw)
@@ -395,8 +361,6 @@ Section Pruned.
   Qed.
 End Pruned.
 
-Definition dirs_root (t : list pt) : list dir_entry := dirs_tbl [47] t.
-
 Lemma nometa_sport_of : forall p, nometa (sport_of p).
 Proof.
   induction p as [nm arr d|nm enum ptr sw sub IHs] using pt_ind2; cbn [sport_of nometa]; split; try reflexivity; try exact I.
@@ -429,15 +393,6 @@ Proof.
   unfold resolve. cbn [p_hard p_soft]. rewrite !forallb_map'. unfold sw_on.
   rewrite <- (paths_app t). reflexivity.
 Qed.
-
-(* the ports the walker was called for: those whose (first element's) address it was given *)
-Definition reported (out : list report) (addr : str) : bool := existsb (fun r => str_eqb (snd r) addr) out.
-Definition walk_tree (t : list pt) (st : state) : list nat :=
-  let a := app_of_tree t in
-  match walk (Some (oracle_of a (dirs_root t) st)) (map render_port (sports_of t)) [] with
-  | WOk out _ => filter (fun i => reported out (elem_addr (port_at a i) 0)) (seq 0 (length a))
-  | WFail => []
-  end.
 
 Lemma nodup_flat_map_idx : forall A B (g : A -> list B) l i j x y v,
   NoDup (flat_map g l) -> nth_error l i = Some x -> nth_error l j = Some y ->
